@@ -418,6 +418,8 @@ def c14_spec(seed, k, corp, hash_seeds, soak=False):
         sess["chunking"] = {"mode": "whole"}
     if r.chance(0.3):
         sess["short_writes"] = [r.between(1, r.choice([1, 5, 100, 5000])) for _ in range(r.between(1, 12))]
+    if r.chance(0.2):
+        sess["exit_term"] = "\r\n"
     sess["stdin_errors"] = "surrogateescape"
     has_raw_bytes = any("\udc80" <= ch <= "\udcff" for ln in lines for ch in ln["raw"])
     if not has_raw_bytes and r.chance(0.3):
@@ -613,7 +615,8 @@ def c14_directed_specs(corp, hash_seeds):
         crlf.append(req(e, term="\r\n"))
         if j % 2:
             crlf.append({"kind": "empty", "entry": "empty", "raw": "", "term": "\r\n"})
-    sess(crlf, "crlf-lockstep")
+    sess(crlf, "crlf-lockstep", exit_term="\r\n")
+    sess([dict(l) for l in crlf], "crlf-pipelined-exit", client={"mode": "pipelined", "window": 4, "eager_end": True}, exit_term="\r\n")
     sess([dict(l) for l in crlf], "crlf-pipelined-eof", client={"mode": "pipelined", "window": 3, "eager_end": False}, end="eof")
     # the same code under different options, interleaved (a reply must depend on the whole request)
     optsets = [{}, {"compact": True}, {"remove_labels": True, "inline_functions": False}, {"compact": True, "append_version": False}]
